@@ -43,13 +43,17 @@ where
     };
 
     // headers
+    let mut header_lines = 0;
     loop {
         buffers::read_line_strict(reader, &mut line, MAX_LINE_LEN)?;
         if line.is_empty() {
             break;
-        } else if headers.len() == max_headers {
+        } else if header_lines == max_headers {
             return Err(InvalidResponseKind::Header.into());
         }
+        // Count every header line, including the ones dropped below because of an invalid name,
+        // so that the amount of input read for a response head is always bounded.
+        header_lines += 1;
 
         let col = line
             .iter()
